@@ -23,6 +23,7 @@ EXPLANATION += (  # round-3 supplement
 )
 EXPLANATION += (
     ' P8 the string and char literal scanners follow the escape transition table of the grammar for every (state, character class) - evaluated on the closure by the finite-domain evaluator, independent of how the state machine is written. P9 doubled braces are only collapsed where they were written literally: on the raw text, or per character with a literal flag - never on the output of the unescaper. P10 after Lexer::number consumed a fraction point or an exponent marker, only Token::Float can be built (path-sensitive boolean simulation from the consuming call).'
+    ' P11 the f32 value of a float literal is not made by narrowing the f64 parse of its text (known finding: it is, so some literals are rounded twice).'
 )
 ASSUMPTIONS = [
     "the language reference (docs/source/reference/language_reference.md) is the specification of precedence",
@@ -851,6 +852,43 @@ def rule_p10(F):
     return r
 
 
+def rule_p11(F):
+    """A float literal of type f32 denotes the f32 nearest to its decimal text.  Rounding the text to an f64 first and narrowing that
+    rounds twice, which differs for decimals just above (below) the midpoint of two f32 values that lie within half an f64 ulp of it
+    (`1.00000005960464478` is 1.0000001, not 1.0).  So no f64 -> f32 narrowing is applied to the payload of a float literal of the
+    syntax tree (wherever the f32 value is made, it has to come from the text)."""
+    r = RuleResult("C09.P11", "the f32 value of a float literal is not made by narrowing an f64 parse of its text (single rounding)", floor=1)
+    n = 0
+    for b in F.all_bodies():
+        if not b.mir or not (b.path.startswith("lir::") or b.path.startswith("mir::") or b.path.startswith("typechecker::") or b.path.startswith("parser::") or b.path.startswith("codegen::")):
+            continue
+        defs = None
+        for blk in b.blocks:
+            for st in blk["stmts"]:
+                if st["k"] != "assign" or st["rv"]["k"] != "cast" or st["rv"].get("ck") != "FloatToFloat" or st["rv"].get("ty") != "f32":
+                    continue
+                o = st["rv"]["o"]
+                if not mir.is_place_op(o):
+                    continue
+                defs = defs or mir.Defs(b)
+                root, path = mir.origin(b, defs, o[1])
+                lit = root.startswith("arg") and "as:Float" in path and "ast::Literal" in (b.mir["locals"][int(root[3:])].get("ty") or "")
+                via_parse = root.startswith("call:") and "parse" in root and b.path.startswith("parser::")
+                if not (lit or via_parse):
+                    continue
+                n += 1
+                r.inst("narrowing of a literal's f64 value in %s" % b.path, {"fn": b.path, "line": st["line"], "operand": "%s %s" % (root, "".join(path))})
+                r.bad(b.path, "f32 literal narrowed from f64", relfile(b.file), st["line"],
+                      "the f32 value of a float literal is `payload as f32` of the f64 the parser made from the text: two roundings; a decimal within half an f64 ulp above the midpoint of two "
+                      "f32 values gets the lower one (1.00000005960464478f32 == 1.0f32)")
+    lowering = [p for p in F.paths() if p.endswith("::literal") and "lir::lower" in p]
+    if not lowering:
+        r.missing("lir::lower literal lowering")
+    else:
+        r.inst("literal lowering inspected", {"fn": lowering[0], "narrowing_casts_of_literal_payloads": n})
+    return r
+
+
 def rules(ctx):
     F = ctx["F"]
-    return [rule_p1(F), rule_p2(F), rule_p3(F), rule_p4(F), rule_p5(F), rule_p6(F), rule_p7(F), rule_p8(F), rule_p9(F), rule_p10(F)]
+    return [rule_p1(F), rule_p2(F), rule_p3(F), rule_p4(F), rule_p5(F), rule_p6(F), rule_p7(F), rule_p8(F), rule_p9(F), rule_p10(F), rule_p11(F)]
